@@ -129,7 +129,8 @@ class ReachTheTargetSim(GridWorldSimulation):
                     else:
                         for attacked_agent in attacked_agents:
                             if not attacked_agent.active: # Agent has died
-                                self.rewards[attacked_agent.id] -= 1
+                                if is_agent(attacked_agent):
+                                    self.rewards[attacked_agent.id] -= 1
                                 self.rewards[agent_id] += 1
 
         # Process the moves
